@@ -10,13 +10,24 @@
 //!   addseq <mol> <k> <seed> <force> <isprotein> <hexseq>  mins() of a scaled=1 KmerMinHash
 //!   capi   <mol> <k> <seed> <force> <zeroes> <isprotein> <hexseq>  kmerminhash_seq_to_hashes
 //!   murmur <seed> <hexbytes>     codon <hex>     toaa <mol> <hex>     rc <hex>
+//!   seq <hexseq>                 sets the case's current sequence (`@` in later ops); answers `len=<n>`
+//!   ds2h / dfeed <mol> <k> <seed> <force> <isprotein> <hexseq|@>   the same observations as `s2h` /
+//!                                `feed`, answered as a digest (count, xor, sum, order-sensitive
+//!                                polynomial, first and last 8 values) — for 65 000…200 000-base inputs
+//!   daddseq <v|t> <num> <mol> <k> <seed> <force> <isprotein> <hexseq|@>   digest of mins() of a
+//!                                KmerMinHash (`v`) / KmerMinHashBTree (`t`), scaled=1 (num=0) or
+//!                                bottom-<num>
+//!   sigadd <digest> <force> <isprotein> <specs> <hexseq|@>   `Signature::add_sequence` / `add_protein`
+//!                                on a signature of several sketches `ty:num:scaled:mol:k:seed;…`;
+//!                                `ok <mins>|<mins>|…` (digests when <digest>=1) or `err <Variant>`
 use sourmash::encodings::{aa_to_dayhoff, aa_to_hp, revcomp, to_aa, translate_codon, HashFunctions, VALID};
 use sourmash::ffi::minhash::{
     kmerminhash_free, kmerminhash_new, kmerminhash_seq_to_hashes, kmerminhash_slice_free,
 };
 use sourmash::ffi::utils::{sourmash_err_clear, sourmash_err_get_last_code};
-use sourmash::signature::{SeqToHashes, SigsTrait};
-use sourmash::sketch::minhash::KmerMinHash;
+use sourmash::signature::{SeqToHashes, Signature, SigsTrait};
+use sourmash::sketch::minhash::{KmerMinHash, KmerMinHashBTree};
+use sourmash::sketch::Sketch;
 use sourmash::Error;
 use std::io::Write;
 use verif_harness::*;
@@ -102,10 +113,26 @@ fn dump() {
 const MOLS: [&str; 4] = ["dna", "protein", "dayhoff", "hp"];
 const AAS: &[u8] = b"ACDEFGHIKLMNPQRSTVWY";
 
+/// a long case waiting to be emitted (interleaved with the short ones: `./check` splits the request
+/// lines into contiguous chunks of equal line count, one worker each)
+#[derive(Clone)]
+struct Long {
+    mol: &'static str,
+    k: u64,
+    len: usize,
+    force: bool,
+    isprot: bool,
+    nbad: usize,
+    sig: bool,
+}
+
 struct G {
     r: Rng,
     o: Out,
     nseq: u64,
+    longq: Vec<Long>,
+    stride: u64,
+    since: u64,
 }
 
 impl G {
@@ -167,6 +194,142 @@ impl G {
         // the C API truncates nothing (buffer + length), but the ksize is a u32 and the scaled 1
         let z = self.r.below(2);
         self.o.op(&format!("capi {} {} {} {} {} {} {}", mol, k, seed, f, z, p, h));
+        // the digest forms of the same observations: on inputs of this size the Lean driver checks
+        // its linear-time digest path against the model / specification functions themselves
+        if self.r.chance(1, 4) {
+            self.o.op(&format!("ds2h {} {} {} {} {} {}", mol, k, seed, f, p, h));
+            self.o.op(&format!("dfeed {} {} {} {} {} {}", mol, k, seed, f, p, h));
+            let (ty, num) = self.container(false);
+            self.o.op(&format!("daddseq {} {} {} {} {} {} {} {}", ty, num, mol, k, seed, f, p, h));
+        }
+        self.since += 1;
+        if self.since >= self.stride {
+            self.since = 0;
+            if let Some(l) = self.longq.pop() {
+                self.emit_long(&l);
+            }
+        }
+    }
+    /// container type and num bound of a `daddseq`; a vector sketch that keeps everything is
+    /// quadratic in the number of hashes, so long inputs get a tree or a bottom-num vector
+    fn container(&mut self, long: bool) -> (&'static str, u64) {
+        match self.r.below(4) {
+            0 => ("t", 0),
+            1 => ("t", *self.r.pick(&[1u64, 5, 500])),
+            2 => ("v", *self.r.pick(&[1u64, 5, 500, 1000])),
+            _ => {
+                if long {
+                    ("t", 0)
+                } else {
+                    ("v", 0)
+                }
+            }
+        }
+    }
+    /// `ty:num:scaled:mol:k:seed`
+    fn sketch_spec(&mut self, mol: &str, k: u64, seed: u64) -> String {
+        let ty = *self.r.pick(&["v", "v", "t"]);
+        let (num, scaled) = match self.r.below(6) {
+            0 | 1 | 2 => (0u64, 1u64),
+            3 => (0, *self.r.pick(&[2u64, 3, 10, 1000])),
+            _ => (*self.r.pick(&[1u64, 3, 5, 500]), 0),
+        };
+        format!("{}:{}:{}:{}:{}:{}", ty, num, scaled, mol, k, seed)
+    }
+    /// sketches of one signature: few distinct ksizes and seeds, so that sketches sharing
+    /// (ksize, molecule) with different seeds, and sharing a seed with different ksizes, are common
+    fn sig_specs(&mut self, mols: &[&'static str], kd: &[u64], kp: &[u64], n: u64) -> String {
+        let seeds = [42u64, self.seed(), self.seed(), 43];
+        let mut v = vec![];
+        for _ in 0..n {
+            let mol = *self.r.pick(mols);
+            let k = if mol == "dna" { *self.r.pick(kd) } else { *self.r.pick(kp) };
+            let seed = *self.r.pick(&seeds);
+            v.push(self.sketch_spec(mol, k, seed));
+        }
+        v.join(";")
+    }
+    /// 65 000 … 200 000 bases / residues: mostly ACGT, a handful of N / lower-case / invalid bytes
+    /// near multiples of 4096 and 65536 (and near where overlapping 65536-blocks would start) and
+    /// near both ends
+    fn long_seq(&mut self, l: &Long) -> Vec<u8> {
+        let len = l.len;
+        if l.isprot {
+            return (0..len).map(|_| self.residue()).collect();
+        }
+        let mut s: Vec<u8> = Vec::with_capacity(len);
+        while s.len() < len {
+            let mut x = self.r.next();
+            for _ in 0..32 {
+                if s.len() < len {
+                    s.push(b"ACGT"[(x & 3) as usize]);
+                    x >>= 2;
+                }
+            }
+        }
+        let k = l.k as i64;
+        let near = |g: &mut G| -> usize {
+            let j = g.r.range(1, 1 + (len as u64 >> 16)) as i64;
+            // a DNA sketch that is not forcing stops at the first invalid window: keep those late
+            let late = l.mol == "dna" && !l.force && !l.isprot;
+            let anchor: i64 = match if late { 1 + g.r.below(2) * 6 } else { g.r.below(8) } {
+                0 => 4096 * g.r.range(1, 1 + (len as u64 >> 12)) as i64,
+                1 | 2 => 65536 * j,
+                3 => 65536 * j - (j - 1) * (k - 1),
+                4 => 65536 * j - j * (k - 1),
+                5 => 65536 * j - j * (k - 3),
+                6 => 0,
+                _ => len as i64 - 1,
+            };
+            let p = anchor + g.r.range(0, 2 * l.k + 6) as i64 - k - 3;
+            p.clamp(0, len as i64 - 1) as usize
+        };
+        // lower case: a few single positions and one run
+        for _ in 0..self.r.below(6) {
+            let p = near(self);
+            s[p] = s[p].to_ascii_lowercase();
+        }
+        if self.r.chance(1, 2) {
+            let p = near(self);
+            for q in p..(p + self.r.range(1, 80) as usize).min(len) {
+                s[q] = s[q].to_ascii_lowercase();
+            }
+        }
+        for _ in 0..l.nbad {
+            let p = near(self);
+            s[p] = if self.r.chance(1, 2) { b'N' } else { self.bad() };
+        }
+        s
+    }
+    fn emit_long(&mut self, l: &Long) {
+        let seq = self.long_seq(l);
+        self.o.case(if l.sig { "long-sig" } else { "long" });
+        self.nseq += 1;
+        self.o.op(&format!("seq {}", hex(&seq)));
+        let seed = self.seed();
+        let (f, p) = (l.force as u8, l.isprot as u8);
+        if l.sig {
+            let mols: &[&'static str] = if l.isprot { &MOLS[1..] } else { &MOLS };
+            let n = self.r.range(3, 5);
+            let specs = self.sig_specs(mols, &[l.k, 31], &[l.k, 30], n)
+                .replace("v:0:1:", "t:0:1:"); // a vector sketch that keeps 10^5 hashes is quadratic
+            self.o.op(&format!("sigadd 1 {} {} {} @", f, p, specs));
+            return;
+        }
+        self.o.op(&format!("ds2h {} {} {} {} {} @", l.mol, l.k, seed, f, p));
+        self.o.op(&format!("dfeed {} {} {} {} {} @", l.mol, l.k, seed, f, p));
+        let (ty, num) = self.container(true);
+        self.o.op(&format!("daddseq {} {} {} {} {} {} {} @", ty, num, l.mol, l.k, seed, f, p));
+    }
+    fn long_len(&mut self, kind: u64, k: u64) -> usize {
+        (match kind {
+            0 => self.r.range(65530, 65545),
+            1 => 70000,
+            2 => self.r.range(131072 - k, 131072 + k),
+            3 => *self.r.pick(&[196608u64, 200000, 199999]) + self.r.below(4),
+            5 => self.r.range(4000, 6000),
+            _ => self.r.range(65537, 210000),
+        }) as usize
     }
     /// DNA sequence of length `len` with invalid bases at the given positions
     fn dna_with(&mut self, len: usize, lower: u64, bad_at: &[usize]) -> Vec<u8> {
@@ -201,7 +364,53 @@ fn prot_k(r: &mut Rng) -> u64 {
 fn gen(a: &Args) {
     let thorough = a.tier == "thorough";
     let mul: u64 = if thorough { 25 } else { 1 };
-    let mut g = G { r: Rng::new(a.seed), o: Out::new(), nseq: 0 };
+    let mut g = G {
+        r: Rng::new(a.seed),
+        o: Out::new(),
+        nseq: 0,
+        longq: vec![],
+        stride: if thorough { 2500 } else { 400 },
+        since: 0,
+    };
+    // ---- long inputs (emitted in between the short cases, see `emit`)
+    {
+        let mut q: Vec<Long> = vec![];
+        let mut add = |g: &mut G, mol: &'static str, k: u64, kind: u64, force: bool, isprot: bool, nbad: usize, sig: bool| {
+            let len = g.long_len(kind, k);
+            q.push(Long { mol, k, len, force, isprot, nbad, sig });
+        };
+        add(&mut g, "dna", 21, 0, false, false, 0, false);
+        add(&mut g, "protein", 21, 1, false, false, 0, false);
+        add(&mut g, "dna", 31, 2, true, false, 6, false);
+        add(&mut g, "dayhoff", 30, 0, true, false, 4, false);
+        add(&mut g, "hp", 57, 2, false, false, 3, false);
+        add(&mut g, "dna", 21, 1, false, false, 0, true);
+        add(&mut g, "protein", 33, 3, true, false, 5, false);
+        add(&mut g, "protein", 21, 4, false, true, 0, false);
+        add(&mut g, "dna", 57, 3, true, false, 6, false);
+        // the real code rebuilds the reduced residue string on every `next()` (`prot_configured` is
+        // never set): quadratic — 65 536 residues into a Dayhoff sketch take a minute — so Dayhoff
+        // and HP sketches get protein inputs of a few thousand residues only
+        add(&mut g, "dayhoff", 30, 5, false, true, 0, false);
+        add(&mut g, "dna", 21, 1, false, false, 1, false); // fails late
+        let extra = if thorough { 48 } else { 2 };
+        for _ in 0..extra {
+            let isprot = g.r.chance(1, 5);
+            let mol = if isprot { *g.r.pick(&MOLS[1..]) } else { *g.r.pick(&MOLS) };
+            let k = if mol == "dna" {
+                *g.r.pick(&[21u64, 31, 51, 57, 32, 63])
+            } else {
+                *g.r.pick(&[21u64, 30, 33, 57, 27, 31, 9])
+            };
+            let kind = if isprot && mol != "protein" { 5 } else { g.r.below(5) };
+            let force = g.r.chance(1, 2);
+            let nbad = if mol == "dna" && !force { g.r.below(2) as usize } else { g.r.below(7) as usize };
+            let sig = g.r.chance(1, 6);
+            add(&mut g, mol, k, kind, force, isprot, nbad, sig);
+        }
+        q.reverse();
+        g.longq = q;
+    }
 
     // ---- fixed vectors: murmur suite vector, the whole codon alphabet, table probes
     g.o.case("fixed");
@@ -393,6 +602,41 @@ fn gen(a: &Args) {
         let k = g.r.below(3);
         g.emit("k0-prot", mol, k, 42, false, true, &s);
     }
+    // ---- Signature::add_sequence / add_protein over several sketches
+    for _ in 0..(500 * mul) {
+        let isprot = g.r.chance(1, 3);
+        let kd = [dna_k(&mut g.r), dna_k(&mut g.r)];
+        let kp = [3 * g.r.range(1, 11), prot_k(&mut g.r)];
+        let mols: &[&'static str] = if isprot && !g.r.chance(1, 12) { &MOLS[1..] } else { &MOLS };
+        let n = g.r.range(2, 5);
+        let specs = g.sig_specs(mols, &kd, &kp, n);
+        let kmax = *kd.iter().chain(kp.iter()).max().unwrap();
+        let seq: Vec<u8> = if isprot {
+            let len = g.r.below(kmax + 8) as usize;
+            (0..len).map(|_| g.residue()).collect()
+        } else {
+            let len = match g.r.below(4) {
+                0 => g.r.below(kmax + 3) as usize,
+                _ => g.r.range(kmax / 2, 2 * kmax + 30) as usize,
+            };
+            let lower = *g.r.pick(&[0u64, 0, 10, 100]);
+            let mut s = g.dna(len, lower);
+            if len > 0 {
+                for _ in 0..(match g.r.below(3) { 0 => g.r.range(1, 3), _ => 0 }) {
+                    let p = g.r.below(len as u64) as usize;
+                    s[p] = g.bad();
+                }
+            }
+            s
+        };
+        let force = g.r.chance(1, 2);
+        g.o.case("sig");
+        g.nseq += 1;
+        g.o.op(&format!("sigadd 0 {} {} {} {}", force as u8, isprot as u8, specs, hex(&seq)));
+    }
+    while let Some(l) = g.longq.pop() {
+        g.emit_long(&l);
+    }
     let n = g.nseq;
     drop(g);
     eprintln!("c02 gen: {} sequences", n);
@@ -446,10 +690,72 @@ impl SigsTrait for Recorder {
     }
 }
 
-fn step(_: &mut (), ws: &[&str]) -> String {
+/// count, xor, wrapping sum, order-sensitive polynomial, first and last (up to) 8 values
+fn digest(v: &[u64]) -> String {
+    let mut x = 0u64;
+    let mut s = 0u64;
+    let mut p = 0u64;
+    for &h in v {
+        x ^= h;
+        s = s.wrapping_add(h);
+        p = p.wrapping_mul(0x0000_0100_0000_01b3).wrapping_add(h);
+    }
+    let m = v.len().min(8);
+    format!(
+        "n={} x={} s={} p={} f={} l={}",
+        v.len(),
+        x,
+        s,
+        p,
+        show_nats(v[..m].iter().cloned()),
+        show_nats(v[v.len() - m..].iter().cloned())
+    )
+}
+
+/// per-case state: the current sequence (`seq <hex>`; `@` refers to it)
+struct S {
+    cur: Vec<u8>,
+}
+
+fn seq_arg(st: &S, w: &str) -> Vec<u8> {
+    if w == "@" {
+        st.cur.clone()
+    } else {
+        unhex(w)
+    }
+}
+
+/// `ty:num:scaled:mol:k:seed`
+fn build_sketch(spec: &str) -> Sketch {
+    let f: Vec<&str> = spec.split(':').collect();
+    let num: u32 = f[1].parse().unwrap();
+    let scaled: u64 = f[2].parse().unwrap();
+    let m = hf(f[3]);
+    let k: u32 = f[4].parse().unwrap();
+    let seed: u64 = f[5].parse().unwrap();
+    if f[0] == "t" {
+        Sketch::LargeMinHash(KmerMinHashBTree::new(scaled, k, m, seed, false, num))
+    } else {
+        Sketch::MinHash(KmerMinHash::new(scaled, k, m, seed, false, num))
+    }
+}
+
+fn sketch_mins(sk: &Sketch) -> Vec<u64> {
+    match sk {
+        Sketch::MinHash(mh) => mh.mins(),
+        Sketch::LargeMinHash(mh) => mh.mins(),
+        _ => panic!("sketch type"),
+    }
+}
+
+fn step(st: &mut S, ws: &[&str]) -> String {
     match ws[0] {
         "case" => "ok".into(),
         "selfcheck" => "ok".into(),
+        "seq" => {
+            st.cur = unhex(ws[1]);
+            format!("len={}", st.cur.len())
+        }
         "murmur" => sourmash::_hash_murmur(&unhex(ws[2]), ws[1].parse().unwrap()).to_string(),
         "codon" => match translate_codon(&unhex(ws[1])) {
             Ok(v) => v.to_string(),
@@ -463,26 +769,44 @@ fn step(_: &mut (), ws: &[&str]) -> String {
                 Err(e) => format!("err {}", variant(&e)),
             }
         }
-        "s2h" | "feed" | "addseq" => {
-            let m = hf(ws[1]);
-            let k: usize = ws[2].parse().unwrap();
-            let seed: u64 = ws[3].parse().unwrap();
-            let force = ws[4] == "1";
-            let isprot = ws[5] == "1";
-            let seq = unhex(ws[6]);
-            match ws[0] {
+        "s2h" | "feed" | "addseq" | "ds2h" | "dfeed" | "daddseq" => {
+            let dg = ws[0].starts_with('d');
+            let op = if dg { &ws[0][1..] } else { ws[0] };
+            // daddseq carries the container type and the num bound in front
+            let (tree, num, a) = if ws[0] == "daddseq" {
+                (ws[1] == "t", ws[2].parse::<u32>().unwrap(), &ws[3..])
+            } else {
+                (false, 0u32, &ws[1..])
+            };
+            let m = hf(a[0]);
+            let k: usize = a[1].parse().unwrap();
+            let seed: u64 = a[2].parse().unwrap();
+            let force = a[3] == "1";
+            let isprot = a[4] == "1";
+            let seq = seq_arg(st, a[5]);
+            let show = |v: Vec<u64>| if dg { digest(&v) } else { show_nats(v) };
+            match op {
                 "s2h" => {
-                    let mut out: Vec<String> = vec![];
+                    let mut vals: Vec<u64> = vec![];
+                    let mut end = "end".to_string();
                     for it in SeqToHashes::new(&seq, k, force, isprot, m, seed) {
                         match it {
-                            Ok(h) => out.push(h.to_string()),
+                            Ok(h) => vals.push(h),
                             Err(e) => {
-                                out.push(format!("E:{}", variant(&e)));
+                                end = format!("E:{}", variant(&e));
                                 break;
                             }
                         }
                     }
-                    if out.is_empty() { "-".into() } else { out.join(",") }
+                    if dg {
+                        format!("{}|{}", digest(&vals), end)
+                    } else {
+                        let mut out: Vec<String> = vals.iter().map(|h| h.to_string()).collect();
+                        if end != "end" {
+                            out.push(end);
+                        }
+                        if out.is_empty() { "-".into() } else { out.join(",") }
+                    }
                 }
                 "feed" => {
                     let mut r = Recorder { k, seed, hf: m, got: vec![] };
@@ -491,16 +815,49 @@ fn step(_: &mut (), ws: &[&str]) -> String {
                         Ok(()) => "ok".to_string(),
                         Err(e) => format!("err {}", variant(&e)),
                     };
-                    format!("{}|{}", show_nats(r.got), tail)
+                    format!("{}|{}", show(r.got), tail)
                 }
                 _ => {
-                    let mut mh = KmerMinHash::new(1, k as u32, m, seed, false, 0);
-                    let res = if isprot { mh.add_protein(&seq) } else { mh.add_sequence(&seq, force) };
+                    let scaled = if num == 0 { 1 } else { 0 };
+                    let (res, mins) = if tree {
+                        let mut mh = KmerMinHashBTree::new(scaled, k as u32, m, seed, false, num);
+                        let res = if isprot { mh.add_protein(&seq) } else { mh.add_sequence(&seq, force) };
+                        (res, mh.mins())
+                    } else {
+                        let mut mh = KmerMinHash::new(scaled, k as u32, m, seed, false, num);
+                        let res = if isprot { mh.add_protein(&seq) } else { mh.add_sequence(&seq, force) };
+                        (res, mh.mins())
+                    };
                     match res {
-                        Ok(()) => show_nats(mh.mins()),
+                        Ok(()) => show(mins),
                         Err(e) => format!("err {}", variant(&e)),
                     }
                 }
+            }
+        }
+        "sigadd" => {
+            let dg = ws[1] == "1";
+            let force = ws[2] == "1";
+            let isprot = ws[3] == "1";
+            let seq = seq_arg(st, ws[5]);
+            let mut sig = Signature::default();
+            for sp in ws[4].split(';') {
+                sig.push(build_sketch(sp));
+            }
+            let res = if isprot { sig.add_protein(&seq) } else { sig.add_sequence(&seq, force) };
+            match res {
+                Ok(()) => format!(
+                    "ok {}",
+                    sig.sketches()
+                        .iter()
+                        .map(|sk| {
+                            let v = sketch_mins(sk);
+                            if dg { digest(&v) } else { show_nats(v) }
+                        })
+                        .collect::<Vec<_>>()
+                        .join("|")
+                ),
+                Err(e) => format!("err {}", variant(&e)),
             }
         }
         "capi" => {
@@ -516,7 +873,7 @@ fn step(_: &mut (), ws: &[&str]) -> String {
             let force = ws[4] == "1";
             let zeroes = ws[5] == "1";
             let isprot = ws[6] == "1";
-            let seq = unhex(ws[7]);
+            let seq = seq_arg(st, ws[7]);
             unsafe {
                 sourmash_err_clear();
                 let mh = kmerminhash_new(1, k, m, seed, false, 0);
@@ -555,7 +912,7 @@ fn main() {
     match a.mode.as_str() {
         "dump" => dump(),
         "gen" => gen(&a),
-        "exec" => exec_loop(|| (), step),
+        "exec" => exec_loop(|| S { cur: vec![] }, step),
         _ => panic!("mode"),
     }
 }
